@@ -66,6 +66,7 @@ class Profile(object):
         self.max_size_bound = 40    # upper limit for generated SIZE bounds
         self.elem_names = True
         self.top_tags = True
+        self.wide_additions = True
         for k, v in kw.items():
             if not hasattr(self, k):
                 raise AttributeError(k)
@@ -363,13 +364,18 @@ class _G(object):
         n = self.d(st.integers(lo, P.max_members))
         has_ext = P.ext and self.chance(35)
         n_add = self.d(st.integers(0, 3)) if has_ext else 0
+        wide = has_ext and k != 'CHOICE' and P.wide_additions and self.chance(12)
+        if wide:
+            # presence-bitmap boundaries: 7, 8, 9, 16, 17 additions of simple types
+            n_add = self.pick([7, 8, 9, 16, 17])
+            n = min(n, 2)
         n_root2 = 0
         if has_ext and P.root2 and k != 'CHOICE' and mod.tagdefault != 'AUTOMATIC' and self.chance(25):
             n_root2 = self.d(st.integers(0, 2))
             has_root2 = True
         else:
             has_root2 = False
-        total = n + n_add * 2 + n_root2
+        total = n + (n_add if wide else n_add * 2) + n_root2
         names = self.member_names(min(total, len(MEMBER_NAMES)))
         it = iter(names)
 
@@ -391,6 +397,17 @@ class _G(object):
             t.ext = []
             for _ in range(n_add):
                 try:
+                    if wide:
+                        nm = next(it)
+                        kk = self.pick([q for q in ('BOOLEAN', 'NULL', 'INTEGER') if q in P.kinds] or
+                                       [P.kinds[0]])
+                        m = Member(nm, Ty(kk) if kk in ('BOOLEAN', 'NULL', 'INTEGER') else self.prim(mod, depth + 1))
+                        if kk == 'INTEGER' and P.require_bounded:
+                            m.ty.rng = Rng(0, 255)
+                        if self.chance(70):
+                            m.optional = True
+                        t.ext.append(m)
+                        continue
                     if P.groups and self.chance(30):
                         gm = [mk(in_choice) for _ in range(self.d(st.integers(1, 2)))]
                         t.ext.append(Group(gm))
